@@ -119,10 +119,13 @@ structure State (α : Type) where
   led : Ledger α := {}
 deriving Repr
 
-/-- build configuration of the model: `repo` is the code as it is -/
+/-- version of the modelled code: `current` is `crates/oxidd-ffi-c` as it is, `beforeFix` the
+wrapper before commit "oxidd_zbdd_make_node releases hi and lo on every path" (kept for the
+`…_before_fix` witnesses and the protocol `protoBeforeFix`) -/
 structure Cfg where
-  /-- `oxidd_zbdd_make_node` releases `hi` and `lo` on every path (as documented). In /repo the
-  closure taking them over only runs when `var` is valid, and `lo` is only taken when `hi` is. -/
+  /-- `oxidd_zbdd_make_node` releases `hi` and `lo` on every path (as documented): it takes them
+  over (`get().map(ManuallyDrop::into_inner)`) before anything can fail. Before the fix the closure
+  taking them over only ran when `var` was valid, and `lo` was only taken when `hi` was valid. -/
   makeNodeAlwaysConsumes : Bool
 deriving Repr, DecidableEq
 
@@ -248,11 +251,13 @@ def Call.releases : Call α → Bool
 /-- `oxidd_zbdd_make_node` on the reference counts, path by path as in `zbdd.rs` -/
 def makeNodeRc (cfg : Cfg) (mk : α → α → α → Option α) (rc : Rc α) (var hi lo : H α) : Rc α × H α :=
   if cfg.makeNodeAlwaysConsumes then
-    -- repaired wrapper: `hi` and `lo` are taken over before anything can fail
+    -- `let hi = hi.get().map(ManuallyDrop::into_inner); let lo = …;` first: both are owned values
+    -- from here on and are dropped (or moved into `make_node`) on every path
     let rc := (match hi with | .valid h => rc.dropFunction h | .invalid => rc)
     let rc := (match lo with | .valid l => rc.dropFunction l | .invalid => rc)
     rc.ret (var.get.bind fun v => hi.get.bind fun h => lo.get.bind fun l => mk v h l)
   else
+    -- the wrapper before the fix
     match var.get with
     | none => (rc, .invalid)                      -- the closure of `and_then` does not run
     | some v =>
